@@ -67,6 +67,9 @@ func (ft *FuncTr) instr(b *ssa.BasicBlock, st *State, at *Term, in ssa.Instructi
 			st.locals[x] = ft.w.zero(ft.d, ty)
 			ft.vals[x] = Val{Ref: &LocalRef{alloc: x}}
 		}
+		if ft.trackDef[x] != nil || ft.exitDef[x] {
+			st.ghost[defFlag(x)] = TTrue
+		}
 	case *ssa.Store:
 		pv := ft.val(x.Addr)
 		ty := x.Addr.Type().Underlying().(*types.Pointer).Elem()
@@ -923,6 +926,38 @@ func (ft *FuncTr) ret(st *State, at *Term, x *ssa.Return) error {
 			return fmt.Errorf("ensures[%d] (%s:%d): %v", i+1, en.File, en.Line, err)
 		}
 		ft.assert(at, t, fmt.Sprintf("ensures[%s]", clauseID(en, i)), "", en.Text, x.Pos())
+	}
+	if len(ft.c.Exits) > 0 {
+		envx := ft.newEnv(st)
+		envx.pos = x.Pos()
+		if !envx.pos.IsValid() {
+			envx.pos = ft.curPos
+		}
+		for i, ex := range ft.c.Exits {
+			var used []*ssa.Alloc
+			envx.onLocal = func(a *ssa.Alloc) { used = append(used, a) }
+			t, err := envx.trBool(ex.E)
+			envx.onLocal = nil
+			if err != nil {
+				// a local that is not in scope at this return: the clause does not speak about this exit
+				if strings.Contains(err.Error(), "unknown identifier") {
+					continue
+				}
+				return fmt.Errorf("exit assert[%d] (%s:%d): %v", i+1, ex.File, ex.Line, err)
+			}
+			var guard []*Term
+			seen := map[*ssa.Alloc]bool{}
+			for _, a := range used {
+				if ft.exitDef[a] && !seen[a] {
+					seen[a] = true
+					guard = append(guard, ft.h.ghostVar(st, defFlag(a), SBool))
+				}
+			}
+			if len(guard) > 0 {
+				t = Implies(And(guard...), t)
+			}
+			ft.assert(at, t, fmt.Sprintf("exit[%s]", clauseID(ex, i)), "", ex.Text, x.Pos())
+		}
 	}
 	for i, rc := range ft.c.ReadonlyWhen {
 		cond, err := env.trBool(rc.E)
